@@ -68,6 +68,8 @@ Fixpoint fill_all (fuel : nat) (g : graph) (vs : list Z) (a : addends_t) : optio
          end
   end.
 
+Fixpoint zrange (n : nat) (start : Z) : list Z := match n with O => [] | S n' => start :: zrange n' (start + 1) end.
+
 Section WithL.
   Variable L : Z.          (* ColumnTraits::logVertexCount, 4 <= L < 16 *)
   Variable keep : bool.    (* Settings::keepRowNumber *)
@@ -75,7 +77,7 @@ Section WithL.
   Definition vertexCount : Z := Z.shiftl 1 L.
   Definition maxColumnCount : Z := Z.shiftl 1 (L - 1).
   Definition maxCodeParam : Z := 255.
-  Definition vertices : list Z := map Z.of_nat (seq 0 (Z.to_nat vertexCount)).
+  Definition vertices : list Z := zrange (Z.to_nat vertexCount) 0.      (* 0, 1, .., vertexCount-1 *)
   Definition dfs_fuel : nat := S (Z.to_nat vertexCount).
   Definition rowNumberSize : Z := if keep then 8 else 0.
 
